@@ -121,6 +121,53 @@ theorem C03_new_block_after_prologue (ss : List Stmt) (ins : Bool) (rest nb : Li
 theorem C03_new_block_before_first_import (i s l e : Nat) (bl : Bool) (set : List Imp) (rest nb : List Block) :
     insertAfterComments (.imports i s l e bl set :: rest) nb = nb ++ (.imports i s l e bl set :: rest) := rfl
 
+theorem findSome?_first {α β} (f : α → Option β) (l : List α) (v : β) (h : l.findSome? f = some v) :
+    ∃ pre b post, l = pre ++ b :: post ∧ f b = some v ∧ ∀ c ∈ pre, f c = none := by
+  induction l with
+  | nil => simp at h
+  | cons x xs ih =>
+    rw [List.findSome?_cons] at h
+    cases hx : f x with
+    | some w =>
+      rw [hx] at h; cases h
+      exact ⟨[], x, xs, rfl, hx, by simp⟩
+    | none =>
+      rw [hx] at h
+      obtain ⟨pre, b, post, hxs, hb, hpre⟩ := ih h
+      refine ⟨x :: pre, b, post, by simp [hxs], hb, ?_⟩
+      intro c hc
+      rcases List.mem_cons.mp hc with rfl | hc
+      · exact hx
+      · exact hpre c hc
+
+/-- **C03_future_block_takes_import** — when some import block holds a `__future__` import, no new block is
+    created at all: the last such block is the target and the block list is unchanged, so nothing can end up in
+    front of a `__future__` import (every block after the target is free of them). -/
+theorem C03_future_block_takes_import (st : St) (fid : Nat) (h : leadingFuture st.blocks = some fid) :
+    insertNewImportBlock st = (st, fid) ∧
+    ∃ pre b post, st.blocks = pre ++ b :: post ∧ futureBlockId b = some fid ∧ ∀ c ∈ post, futureBlockId c = none := by
+  constructor
+  · unfold insertNewImportBlock; rw [h]
+  · unfold leadingFuture at h
+    obtain ⟨pre, b, post, hl, hb, hpre⟩ := findSome?_first _ _ _ h
+    refine ⟨post.reverse, b, pre.reverse, ?_, hb, ?_⟩
+    · have := congrArg List.reverse hl
+      simpa using this
+    · intro c hc
+      exact hpre c (List.mem_reverse.mp hc)
+
+/-- and conversely a new block is only created when no block holds a `__future__` import -/
+theorem C03_new_block_only_without_leading_future (st st1 : St) (id : Nat)
+    (h : insertNewImportBlock st = (st1, id)) (hne : st1.blocks ≠ st.blocks) :
+    ∀ b ∈ st.blocks, futureBlockId b = none := by
+  unfold insertNewImportBlock at h
+  split at h
+  · cases h; exact absurd rfl hne
+  · rename_i hnone
+    unfold leadingFuture at hnone
+    intro b hb
+    exact List.findSome?_eq_none_iff.mp hnone b (List.mem_reverse.mpr hb)
+
 /-- **C03_add_total** — `add_import` has no failure mode other than
     ImportAlreadyExistsError (which the mandatory loop swallows). -/
 theorem C03_add_total (st : St) (imp : Imp) (ml : Option Nat) (e : Err)
